@@ -1,5 +1,5 @@
 (* Proofs/AssembleTheorems.v — the C05 theorems (statements re-exported by Props/C05.v). *)
-From Coq Require Import Lia ZifyN ZifyNat ZifyBool.
+From Coq Require Import String Lia ZifyN ZifyNat ZifyBool.
 From S4.Base Require Import Bytes.
 From S4.Spec Require Import AssembleSpec.
 From S4.Model Require Import Assemble.
@@ -462,8 +462,8 @@ Proof.
   intros j e Hj He Heq.
   assert (j = idx); [|lia].
   apply (NoDup_first (map fst entries) Hnd j idx member).
-  - rewrite nth_error_map, He. simpl. now rewrite Heq.
-  - rewrite nth_error_map, Hn. reflexivity.
+  - rewrite (map_nth_error fst j entries He). now rewrite Heq.
+  - now rewrite (map_nth_error fst idx entries Hn).
 Qed.
 
 (* a member whose own path contains '|' cannot be addressed: the split happens inside it *)
@@ -472,7 +472,7 @@ Theorem tar_member_pipe_refuted_thm :
     nth_error entries 0 = Some (member, content) /\ In SUBPATH_SEP member
     /\ tar_open (archive ++ SUBPATH_SEP :: member) entries <> AOk (archive, 0, len content).
 Proof.
-  exists (s2b "a.tar"), (s2b "x|y"), [(s2b "x|y", [1; 2; 3])], [1; 2; 3].
+  exists (s2b "a.tar"%string), (s2b "x|y"%string), [(s2b "x|y"%string, [1; 2; 3])], [1; 2; 3].
   repeat split; [vm_compute; tauto | vm_compute; discriminate].
 Qed.
 
@@ -497,6 +497,6 @@ Example xz_example_extra_block :
 Proof. vm_compute. repeat split; reflexivity. Qed.
 
 Example tar_example :
-  tar_open (s2b "d/a.tar|m/y.log") [(s2b "m/x.log", [1]); (s2b "m/y.log", [2; 3]); (s2b "m/y.log", [4])]
-  = AOk (s2b "d/a.tar", 1, 2).
+  tar_open (s2b "d/a.tar|m/y.log"%string) [(s2b "m/x.log"%string, [1]); (s2b "m/y.log"%string, [2; 3]); (s2b "m/y.log"%string, [4])]
+  = AOk (s2b "d/a.tar"%string, 1, 2).
 Proof. vm_compute. reflexivity. Qed.
